@@ -280,3 +280,36 @@ func detailsDiff(a, b *errorspb.EncodedErrorDetails) (string, string) {
 
 // Bg returns the background context.
 func Bg() context.Context { return bg }
+
+// WireLayer is one visible layer of an encoded error.
+type WireLayer struct {
+	TypeName, Family, Extension string
+	Reportable                  []string
+	Message                     string
+	IsWrapper                   bool
+}
+
+// WireLayers lists the visible layers (not those nested inside payloads)
+// in the same walk as Nodes: node, its single-cause chain, then branches.
+func WireLayers(b []byte) []WireLayer {
+	var out []WireLayer
+	var rec func(enc *errorspb.EncodedError)
+	rec = func(enc *errorspb.EncodedError) {
+		if w := enc.GetWrapper(); w != nil {
+			out = append(out, WireLayer{w.Details.OriginalTypeName, w.Details.ErrorTypeMark.FamilyName, w.Details.ErrorTypeMark.Extension, w.Details.ReportablePayload, w.Message, true})
+			rec(&w.Cause)
+		} else if l := enc.GetLeaf(); l != nil {
+			out = append(out, WireLayer{l.Details.OriginalTypeName, l.Details.ErrorTypeMark.FamilyName, l.Details.ErrorTypeMark.Extension, l.Details.ReportablePayload, l.Message, false})
+			for _, c := range l.MultierrorCauses {
+				rec(c)
+			}
+		}
+	}
+	rec(Unmarshal(b))
+	return out
+}
+
+// IsOpaque tells whether e is one of the library's opaque carrier types.
+func IsOpaque(e error) bool {
+	return strings.HasPrefix(fmt.Sprintf("%T", e), "*errbase.opaque")
+}
